@@ -1,0 +1,36 @@
+// +build verif
+
+package trie
+
+// VerifShape counts the nodes of the in-memory tree by kind. A hashNode entry is a subtree
+// that is not loaded: never resolved since the trie was opened, or unloaded again by the
+// cache-generation eviction in Commit. Read-only; used by the /verif harness to record that
+// eviction really interleaved with the operations it monitors.
+func (t *Trie) VerifShape() (full, short, hash, value int) {
+	var walk func(n node)
+	walk = func(n node) {
+		switch n := n.(type) {
+		case *fullNode:
+			full++
+			for _, c := range n.Children {
+				if c != nil {
+					walk(c)
+				}
+			}
+		case *shortNode:
+			short++
+			walk(n.Val)
+		case hashNode:
+			hash++
+		case valueNode:
+			value++
+		}
+	}
+	if t.root != nil {
+		walk(t.root)
+	}
+	return
+}
+
+// VerifShape is Trie.VerifShape of the wrapped trie.
+func (t *SecureTrie) VerifShape() (full, short, hash, value int) { return t.trie.VerifShape() }
